@@ -381,6 +381,114 @@ theorem abs_isNaN (a : F64) : (F64.abs a).isNaN = a.isNaN := by
   unfold F64.abs isNaN
   rw [mag_ofSM false (mag_lt a)]
 
+/-! ### `math.Pow`'s leading special cases -/
+
+theorem eq_zero_of_mag {y : F64} (h : y.mag = 0) : F64.eq y zeroP = true := by
+  have hk : y.key = 0 := by unfold key; rw [h]; split <;> rfl
+  have hn : y.isNaN = false := by unfold isNaN; rw [h]; decide
+  unfold F64.eq
+  rw [hn, hk]; decide
+
+theorem pow_y_zero {x y : F64} (h : y.mag = 0) : powCore x y = some one := by
+  unfold powCore powSpecial
+  rw [eq_zero_of_mag h]; rfl
+
+theorem eq_self_one : F64.eq one one = true := by decide
+
+theorem pow_one_y (y : F64) : powCore one y = some one := by
+  unfold powCore powSpecial
+  rw [eq_self_one, Bool.or_true]; rfl
+
+/-- `==` on a non-NaN pattern and itself, and `x == 1` only for `x = 1`. -/
+theorem eq_one_iff (x : F64) : F64.eq x one = true ↔ x = one := by
+  constructor
+  · intro h
+    unfold F64.eq at h
+    simp only [Bool.and_eq_true, Bool.not_eq_true', decide_eq_true_eq] at h
+    obtain ⟨_, hk⟩ := h
+    have h1 : one.key = 4607182418800017408 := by decide
+    rw [h1] at hk
+    have hs : x.sign = false := by
+      cases hs : x.sign with
+      | false => rfl
+      | true => unfold key at hk; rw [hs] at hk; simp at hk; omega
+    have hm : x.mag = 4607182418800017408 := by
+      unfold key at hk; rw [hs] at hk; simp at hk; omega
+    rw [← ofSM_sign_mag x, hs, hm]; rfl
+  · intro h; subst h; decide
+
+theorem pow_x_one {x : F64} (h : x ≠ one) : powCore x one = some x := by
+  have h1 : F64.eq x one = false := by
+    cases hx : F64.eq x one with
+    | false => rfl
+    | true => exact absurd ((eq_one_iff x).mp hx) h
+  have h2 : F64.eq one zeroP = false := by decide
+  unfold powCore powSpecial
+  rw [h2, h1, eq_self_one]; rfl
+
+theorem eq_zero_iff_mag (y : F64) (_hn : y.isNaN = false) : F64.eq y zeroP = true ↔ y.mag = 0 := by
+  constructor
+  · intro h
+    unfold F64.eq at h
+    simp only [Bool.and_eq_true, decide_eq_true_eq] at h
+    have hz : zeroP.key = 0 := by decide
+    have hk := h.2
+    rw [hz] at hk
+    unfold key at hk
+    split at hk <;> omega
+  · exact eq_zero_of_mag
+
+theorem pow_nan_x {x y : F64} (hx : x.isNaN = true) (hy : y.mag ≠ 0) :
+    ∃ r, powCore x y = some r ∧ r.isNaN = true := by
+  have h1 : F64.eq y zeroP = false := by
+    cases hy0 : F64.eq y zeroP with
+    | false => rfl
+    | true =>
+      have : y.isNaN = false := by unfold F64.eq at hy0; simp at hy0; exact hy0.1.1
+      exact absurd ((eq_zero_iff_mag y this).mp hy0) hy
+  have h2 : F64.eq x one = false := eq_nan (Or.inl hx)
+  cases h3 : F64.eq y one with
+  | false =>
+    refine ⟨F64.nan, ?_, isNaN_nan⟩
+    unfold powCore powSpecial
+    simp [h1, h2, h3, hx]
+  | true =>
+    -- `Pow(NaN, 1)` returns `x` itself
+    have := (eq_one_iff y).mp h3
+    subst this
+    have hne : x ≠ one := by intro e; subst e; exact absurd hx (by decide)
+    exact ⟨x, pow_x_one hne, hx⟩
+
+theorem pow_nan_y {x y : F64} (hy : y.isNaN = true) (hx : x ≠ one) : powCore x y = some F64.nan := by
+  have h1 : F64.eq y zeroP = false := eq_nan (Or.inl hy)
+  have h2 : F64.eq x one = false := by
+    cases hx1 : F64.eq x one with
+    | false => rfl
+    | true => exact absurd ((eq_one_iff x).mp hx1) hx
+  have h3 : F64.eq y one = false := eq_nan (Or.inl hy)
+  unfold powCore powSpecial
+  simp [h1, h2, h3, hy]
+
+theorem pow_half {x : F64} (hf : x.isFinite = true) (hz : x.mag ≠ 0) (h1 : x ≠ one) :
+    powCore x half = some (sqrt x) := by
+  have hn := not_nan_of_finite hf
+  have hi := not_inf_of_finite hf
+  have e1 : F64.eq half zeroP = false := by decide
+  have e2 : F64.eq x one = false := by
+    cases hx1 : F64.eq x one with
+    | false => rfl
+    | true => exact absurd ((eq_one_iff x).mp hx1) h1
+  have e3 : F64.eq half one = false := by decide
+  have e4 : half.isNaN = false := by decide
+  have e5 : F64.eq x zeroP = false := by
+    cases hx0 : F64.eq x zeroP with
+    | false => rfl
+    | true => exact absurd ((eq_zero_iff_mag x hn).mp hx0) hz
+  have e6 : half.isInf = false := by decide
+  have e7 : F64.eq half half = true := by decide
+  unfold powCore powSpecial
+  simp [e1, e2, e3, e4, e5, e6, e7, hn, hi]
+
 /-! ### the guarded integer operators -/
 
 theorem mod_zero {a b : F64} (h : toInt64 b = 0) : intBinF modI a b = F64.nan := by
